@@ -85,7 +85,8 @@ pub fn rec_id(i: usize) -> String {
     let m = ID_MOD.load(std::sync::atomic::Ordering::SeqCst);
     let j = if m > 0 { i % m } else { i };
     if ID_WIDE.load(std::sync::atomic::Ordering::SeqCst) {
-        format!("r{:0>22}é{}", j, j % 7)
+        // … with an apostrophe in front of it (quoting / escaping of ids in listings)
+        format!("r{:0>21}'é{}", j, j % 7)
     } else {
         format!("r{}", j)
     }
